@@ -155,6 +155,16 @@ class Inner:
             if a["k"] == "tuple":
                 self.ret = [self.ev(x) for x in a["elems"]]
                 return
+            if a["k"] == "struct" and a["segs"][-1] in self.facts.structs and not a.get("rest"):
+                # a result record: the options component first, then the tree (by the types of the fields)
+                sd = self.facts.structs[a["segs"][-1]]
+                tys = {fl["name"]: F.norm_ty(fl["ty"]).split("::")[-1] for fl in sd["fields"]}
+                given = {fl["name"]: fl["e"] for fl in a["fields"]}
+                optf = [n_ for n_, t_ in tys.items() if t_ == "RunOptions"]
+                if len(tys) == 2 and len(optf) == 1 and set(given) == set(tys):
+                    other = [n_ for n_ in tys if n_ != optf[0]][0]
+                    self.ret = [self.ev(given[optf[0]]), self.ev(given[other])]
+                    return
             self.ret = [self.ev(a)]
             return
         self.ret = None
@@ -470,6 +480,11 @@ class Inner:
                 e = st["e"]
                 if mode == "mutate" and e["k"] == "assign" and e["lhs"]["k"] == "unary" and e["lhs"]["op"] == "*" and rx.is_var(e["lhs"]["e"], elem):
                     result = e["rhs"]
+                    continue
+                if mode == "map" and last and e["k"] == "return" and e.get("e") is not None:
+                    # `return X` closing an arm of the closure is the closure's value on that arm
+                    e = e["e"]
+                    result = "same" if (rx.is_var(e, elem) or (catch and rx.is_var(e, catch))) else e
                     continue
                 if mode == "map" and last and not st.get("semi"):
                     result = "same" if (rx.is_var(e, elem) or (catch and rx.is_var(e, catch))) else e
